@@ -291,7 +291,7 @@ class Eval:
                 self._undef(g, a < 0)
                 a = _bounded(ite(a < 0, 0, a), 0, dm.hi(t))
             return self._arith(a << n, t, g), t
-        if k in ("div", "mod"):
+        if k in ("div", "mod", "mul"):
             self._chstack.append(False)
         a, ta = self.ev(e[1], g)
         b, tb = self.ev(e[2], g)
@@ -303,7 +303,13 @@ class Eval:
         if k == "sub":
             return self._arith(a - b, t, g), t
         if k == "mul":
-            return self._arith(a * b, t, g), t
+            ch = self._chstack.pop()
+            p = a * b
+            if ch is not False and ch is not True and not (e[1][0] == "lit" and e[2][0] == "lit"):
+                # same identity as for / and % below: with no reduction inside the operands the factors are
+                # the exact integer values of the operand expressions
+                p = ite(ch, p, self.exact(e[1]) * self.exact(e[2]))
+            return self._arith(p, t, g), t
         if k in ("div", "mod"):
             z = b == 0
             self._flag("divzero", g, z)
